@@ -1,4 +1,5 @@
 import OH.Props.C13
+import OH.Props.TablesC07
 #print axioms OH.Props.C13.normalizeM_eq
 #print axioms OH.Props.C13.C13_no_panic
 #print axioms OH.Props.C13.normalize_eq_of_ok
@@ -8,3 +9,4 @@ import OH.Props.C13
 #print axioms OH.Props.C13.C13_idempotent_M
 #print axioms OH.Props.C13.d13Witness_normalizes
 #print axioms OH.Props.C13.C13_idempotent_before_repair_fails
+#print axioms OH.Props.TablesC07.C07_frames
